@@ -5,7 +5,7 @@
    mixer  F_i = T/4 -+ M1/(4l) -+ M2/(4l) -+ M3/(4Cm).  The spec works in "motor force
    units": t = T/4, a = M1/(4l), b = M2/(4l), c = M3/(4Cm) are INTEGERS, so every
    quantity below is an exact integer (or an explicit fraction <<num, den>>).
-   geometry: l = ln/16, Cm = cn/16 with cn | ln, Fx even  ==>  the yaw-moment clamp
+   geometry: l = ln/16, Cm = cn/16 with 2 cn | ln Fx (cn | ln, or Cm > l with ln Fx a multiple of 2 cn), Fx even  ==>  the yaw-moment clamp
    |M3| <= 2 l Fx  reads |c| <= ln*Fx/(2 cn)  (an integer).
 
    Alloc  = property-level oracle (what C13 states, nothing more).
@@ -96,8 +96,8 @@ Next == /\ tv.fn = "seed"
         /\ \E b \in -K..K, c \in -K..K : tv' = Vec(tv.FM, tv.geo, tv.t, <<tv.a, b, c>>)
 Spec == Init /\ [][Next]_tv
 
-GeosQuick    == { <<16, 16>>, <<4, 1>> }
-GeosThorough == { <<16, 16>>, <<4, 1>>, <<8, 2>>, <<16, 1>> }
+GeosQuick    == { <<16, 16>>, <<4, 1>>, <<4, 16>> }          \* <<4,16>>: Cm > l -- a yaw demand beyond its range limit is still achievable
+GeosThorough == { <<16, 16>>, <<4, 1>>, <<8, 2>>, <<16, 1>>, <<4, 16>>, <<8, 16>> }
 
 Refinement == tv.fn # "seed" => ImplRefinesOracle(tv.FM, tv.geo, tv.t, tv.m)
 Sound      == tv.fn # "seed" => OracleSound(tv.FM, tv.geo, tv.t, tv.m)
